@@ -128,6 +128,20 @@ def check_planar_metric(ctx, R="C16.z"):
                 if not (isinstance(c, ast.Call) and isinstance(c.func, ast.Attribute) and c.func.attr == "distanceTo" and len(c.args) == 1):
                     continue
                 pair = {unparse(c.func.value), unparse(c.args[0])}
+                if pair == {"self.center", f"{ptp}.center"}:
+                    # two planar round regions: their centres' 3-D distance says something only when both lie in one plane
+                    n += 1
+                    if lib.holds(lib.guard_tests(c, fn), f"self.z == {ptp}.z", f"self.center.z == {ptp}.center.z"):
+                        ctx.ok(R, c, f"{cname}.{mn}: the centres' distance is compared only for regions in the same plane")
+                    else:
+                        ctx.finding(
+                            R,
+                            c,
+                            f"{cname}.{mn}: 3-D centre distance between regions of different planes",
+                            f"{cname}.{mn} uses `{unparse(c)}` without `self.z == {ptp}.z` on the path: two parallel discs at different heights share no point, but their centres may be "
+                            f"closer than the sum of the radii, so they are reported as intersecting although their intersection is empty",
+                        )
+                    continue
                 if pair != {ptp, "self.center"}:
                     continue
                 n += 1
@@ -141,7 +155,7 @@ def check_planar_metric(ctx, R="C16.z"):
                         f"{cname}.{mn} uses `{unparse(c)}` (the 3-D distance, which includes the height difference) as the planar distance from the centre without `{ptp}.z == self.z` on the path: "
                         f"for a probe outside the region's plane the height difference is counted twice (or a point above the disc gets a spurious planar term)",
                     )
-    ctx.floor(R, n, 3, "centre-distance computations of the planar round regions")
+    ctx.floor(R, n, 4, "centre-distance computations of the planar round regions")
 
 
 
